@@ -90,7 +90,9 @@ func pTranslate(evs []pEvent, ops map[int]*pOpInfo, vid2op map[int64]int) (items
 			}
 			return o
 		}
-		add := func(term, class string, id int) { items = append(items, pItem{term: term, role: role, class: class, id: id}) }
+		add := func(term, class string, id int) {
+			items = append(items, pItem{term: term, role: role, class: class, id: id})
+		}
 		switch k {
 		case "ingest.try", "flush.try":
 			o := op()
@@ -321,10 +323,10 @@ func pTerms(items []pItem) []string {
 }
 
 type pCfgSpec struct {
-	ICap, FCap                            int
+	ICap, FCap                             int
 	MaxRows, MaxBytes, PartRows, PartBytes int
-	Timeless, HasAbort                    bool
-	FixD5, FixD6, FixD9                   bool
+	Timeless, HasAbort                     bool
+	FixD5, FixD6, FixD9                    bool
 }
 
 func (s pCfgSpec) coq() string {
